@@ -25,81 +25,150 @@ CLOSERS = {"b'end'", "b'until'", "b')'", "b'}'", "b']'", "b'elseif'", "b'else'",
            'self._tokens[self._pos].code'}        # the trailing field separator of a table constructor (a ',' or ';' by the test before it)
 
 
-class _Toks:
-    def __init__(self, K):
-        I, B = z3.IntSort(), z3.BoolSort()
-        self.SP = z3.Function('is_space', I, B)
-        self.NL = z3.Function('is_newline', I, B)
-        self.CM = z3.Function('is_comment', I, B)
-        self.n = K.int('ntokens', 0)
-        self.tokens = SSeq(self.n, lambda i: i if isinstance(i, int) else SInt(toint(i)), 'list')
-
-    def trivia(self, i):
-        t = toint(i)
-        return OR(SBool(self.SP(t)), SBool(self.NL(t)), SBool(self.CM(t)))
+# Token model shared by the cursor-helper contracts: the token list is the identity list (token i IS the integer i), tokens
+# are classified by uninterpreted predicates, the code of token i is the opaque byte 256 + i (so it never collides with a
+# literal byte), a keyword / symbol pattern is an uninterpreted function of its (one opaque byte of) text and `matches`
+# is an uninterpreted relation.
+_I, _B = z3.IntSort(), z3.BoolSort()
+SP, NL, CM = z3.Function('is_space', _I, _B), z3.Function('is_newline', _I, _B), z3.Function('is_comment', _I, _B)
+KWPAT, SYMPAT = z3.Function('keyword_pattern', _I, _I), z3.Function('symbol_pattern', _I, _I)
+MATCH = z3.Function('token_matches', _I, _I, _B)
+NAMECLS = -7         # the class object lexer.TokName used as a pattern
+SEMI = 59            # b';'
 
 
-class GetCodeForSpaces(Contract):
-    target = WRITER + '._get_code_for_spaces'
+def trivia(i):
+    t = toint(i)
+    return OR(SBool(SP(t)), SBool(NL(t)), SBool(CM(t)))
+
+
+def is_semi(i):
+    return SBool(MATCH(toint(i), SYMPAT(z3.IntVal(SEMI))))
+
+
+def code(i):
+    return i + 256
+
+
+def _text_code(v, st):
+    """the one opaque byte standing for a keyword / symbol text"""
+    if isinstance(v, bytes):
+        if len(v) != 1:
+            raise SymErr('multi-byte literal pattern')
+        return v[0]
+    return st.seq(v).get(0)
+
+
+class _CursorHelper(Contract):
+    """Common part: symbolic writer object, views of cursor / bound in a state, modelling hooks."""
     mode = 'lia'
     property_ids = ('C09',)
 
     def setup(self, K):
-        self.T = _Toks(K)
-        T = self.T
+        n = K.int('ntokens', 0)
         pos = K.int('pos', 0)
-        K.st.assume(pos <= T.n)
-        self.pos0 = pos
+        K.st.assume(pos <= n)
         end = K.int('node_end', 0)
-        self.node_none = K.bool('node.isnone')
-        self.end = end
-        self.toklist = K.st.alloc(T.tokens, 'list')
-        self.obj = K.obj(WRITER, _tokens=self.toklist, _pos=pos, _args={}, _indent=K.int('indent', 0))
-        node = SOpt(self.node_none, K.obj('pico8.lua.parser:Node', end_pos=end, _end_token_pos=end))
-        return {'self': self.obj, 'node': node}
+        toklist = K.st.alloc(SSeq(n, lambda i: i if isinstance(i, int) else SInt(toint(i)), 'list'), 'list')
+        obj = K.obj(WRITER, _tokens=toklist, _pos=pos, _args={}, _indent=K.int('indent', 0))
+        node = SOpt(K.bool('node.isnone'), K.obj('pico8.lua.parser:Node', end_pos=end, _end_token_pos=end))
+        a = {'self': obj, 'node': node}
+        self.pos0, self.n, self.b = pos, n, self.bound_of(K, a)        # for the loop invariants of the function's own proof
+        return a
+
+    # ---- views
+    @staticmethod
+    def n_of(K, a):
+        return K.st.seq(K.field(a['self'], '_tokens')).n
+
+    @staticmethod
+    def pos_of(K, a):
+        return K.field(a['self'], '_pos')
+
+    @staticmethod
+    def bound_of(K, a):
+        node = SOpt.of(a['node'])
+        n = _CursorHelper.n_of(K, a)
+        if node.isnone is True:
+            return n
+        end = K.field(node.val, 'end_pos')
+        return end if node.isnone is False else ite(node.isnone, n, end)
 
     def requires(self, K, a):
-        return implies(NOT(self.node_none), self.end <= self.T.n)
+        node = SOpt.of(a['node'])
+        wf = AND(self.pos_of(K, a) >= 0, self.pos_of(K, a) <= self.n_of(K, a))
+        if node.isnone is True:
+            return wf
+        end = K.field(node.val, 'end_pos')
+        return AND(wf, implies(NOT(node.isnone), AND(end <= self.n_of(K, a), end >= 0)))
 
     def modifies(self, K, a):
-        return [self.obj]
+        return [a['self']]
 
-    def bound(self):
-        return ite(self.node_none, self.T.n, self.end)
+    def havoc_record(self, K, a, ref, cur):
+        return {'_pos': SInt(V.ivar(E.fresh('pos_after')))}
+
+    def frame_clause(self, K, a, old):
+        now, was = K.st.heap[a['self'].id], old.st.heap[a['self'].id]
+        return ('only-the-cursor-field-of-the-writer-changes', set(now) == set(was) and all(now[f] is was[f] for f in was if f != '_pos'))
+
+    @staticmethod
+    def first_non_trivia(K, a, p):
+        """p is where _get_code_for_spaces stops when started at the cursor"""
+        pos0, b = _CursorHelper.pos_of(K, a), _CursorHelper.bound_of(K, a)
+        return AND(p >= pos0, OR(p <= b, val_eq(p, pos0)), forall(pos0, p, lambda i: trivia(i)), OR(p >= b, NOT(trivia(p))))
+
+    # ---- modelling hooks
+    def call_hook(self, ex, node, f, args, kw, st):
+        if isinstance(f, BuiltinVal) and f.name == 'isinstance' and len(args) == 2:
+            classes = args[1] if isinstance(args[1], tuple) else (args[1],)
+            fns = [{'TokSpace': SP, 'TokNewline': NL, 'TokComment': CM}.get(c.qual.split(':')[1]) if isinstance(c, ClassVal) else None for c in classes]
+            if not fns or any(fn is None for fn in fns):
+                return NotImplemented
+            return OR(*[SBool(fn(toint(args[0]))) for fn in fns])
+        if isinstance(f, ClassVal) and f.qual.split(':')[1] in ('TokKeyword', 'TokSymbol') and len(args) == 1:
+            fn = KWPAT if f.qual.endswith('TokKeyword') else SYMPAT
+            return SInt(fn(toint(_text_code(args[0], st))))
+        return NotImplemented
+
+    method_model_first = True
+
+    def method_model(self, ex, recv, name, A, kw, st, node):
+        if name == 'matches' and isinstance(recv, (int, SInt)) and len(A) == 1:
+            pat = A[0]
+            if isinstance(pat, ClassVal):
+                if not pat.qual.endswith(':TokName'):
+                    return NotImplemented
+                pat = NAMECLS
+            return SBool(MATCH(toint(recv), toint(pat)))
+        return NotImplemented
+
+    def join_model(self, ex, sq, st, kind):
+        # b''.join(list of codes) is the list itself (every code is one opaque byte)
+        return SSeq(sq.n, sq.get, 'bytes')
+
+    def attr_model(self, base, attr):
+        if attr == 'code' and isinstance(base, (int, SInt)):
+            return code(base)
+        return NotImplemented
+
+
+class GetCodeForSpaces(_CursorHelper):
+    target = WRITER + '._get_code_for_spaces'
+    abstract_result = True
+
+    def result(self, K, a):
+        return V.int_seq('spaces', kind='bytes')
 
     def ensures(self, K, a, old, res):
         if not res.returned:
             return [('no-exception', False)]
-        T = self.T
-        pos1 = K.st.heap[self.obj.id]['_pos']
+        pos0, pos1 = self.pos_of(old, a), self.pos_of(K, a)
         out = K.seq(res.value)
-        b = self.bound()
-        return [('cursor-stops-at-the-first-non-trivia-token-or-the-bound',
-                 AND(pos1 >= self.pos0, OR(pos1 <= b, val_eq(pos1, self.pos0)), forall(self.pos0, pos1, lambda i: T.trivia(i)),
-                     OR(pos1 >= b, NOT(T.trivia(pos1))))),
+        return [('cursor-stops-at-the-first-non-trivia-token-or-the-bound', self.first_non_trivia(old, a, pos1)),
                 ('returns-exactly-the-codes-of-the-consumed-tokens',
-                 AND(val_eq(out.n, pos1 - self.pos0), forall(0, out.n, lambda k: val_eq(out.get(k), self.pos0 + k))))]
-
-    def call_hook(self, ex, node, f, args, kw, st):
-        T = self.T
-        if isinstance(f, BuiltinVal) and f.name == 'isinstance' and len(args) == 2 and isinstance(args[1], ClassVal):
-            fn = {'TokSpace': T.SP, 'TokNewline': T.NL, 'TokComment': T.CM}.get(args[1].qual.split(':')[1])
-            if fn is None:
-                return NotImplemented
-            return SBool(fn(toint(args[0])))
-        return NotImplemented
-
-    def method_model(self, ex, recv, name, A, kw, st, node):
-        return NotImplemented
-
-    def join_model(self, ex, sq, st, kind):
-        # codes are opaque: the code of token i is i; b''.join(list of codes) is the list itself
-        return SSeq(sq.n, sq.get, 'bytes')
-
-    def attr_model(self, base, attr):
-        if attr == 'code' and isinstance(base, SInt):
-            return base                  # codes are opaque: the code of token i is i
-        return NotImplemented
+                 AND(val_eq(out.n, pos1 - pos0), forall(0, out.n, lambda k: val_eq(out.get(k), code(pos0 + k))))),
+                self.frame_clause(K, a, old)]
 
     _loops_override = None
 
@@ -107,19 +176,149 @@ class GetCodeForSpaces(Contract):
     def loops(self):
         if self._loops_override is not None:
             return self._loops_override
-        T = self.T
+        me = self
 
         def inv(ctx, k):
             pos = ctx.get('self._pos')
             strs = ctx['strs']
-            return [('consumed-run-is-trivia', AND(pos >= self.pos0, pos <= T.n, OR(pos <= self.bound(), val_eq(pos, self.pos0)),
-                                                   forall(self.pos0, pos, lambda i: T.trivia(i)))),
-                    ('collected-codes', AND(val_eq(strs.n, pos - self.pos0), forall(0, strs.n, lambda j: val_eq(strs.get(j), self.pos0 + j))))]
-        return {1: LoopSpec(inv=inv, modifies=['self', 'strs'], variant=lambda ctx: T.n - ctx.get('self._pos'),
+            return [('consumed-run-is-trivia', AND(pos >= me.pos0, pos <= me.n, OR(pos <= me.b, val_eq(pos, me.pos0)),
+                                                   forall(me.pos0, pos, lambda i: trivia(i)))),
+                    ('collected-codes', AND(val_eq(strs.n, pos - me.pos0), forall(0, strs.n, lambda j: val_eq(strs.get(j), code(me.pos0 + j)))))]
+        return {1: LoopSpec(inv=inv, modifies=['self', 'strs'], variant=lambda ctx: me.n - ctx.get('self._pos'),
                             shapes={'strs': lambda: V.int_seq('strs', kind='list')})}
 
 
-CONTRACTS = [GetCodeForSpaces()]
+class GetText(_CursorHelper):
+    """_get_text(node, keyword): the trivia before the keyword, then the keyword; the cursor ends one past the token that
+    matched.  Precondition (from the call sites: a handler asks for the keyword its node was parsed with): the first
+    non-trivia token at the cursor exists and matches the keyword or symbol pattern -- the function itself asserts it."""
+    target = WRITER + '._get_text'
+
+    def setup(self, K):
+        a = super().setup(K)
+        kw = K.int('keyword', 0, 255)
+        a['keyword'] = SSeq(1, lambda i: kw, 'bytes')
+        self.p = K.int('p', 0)                 # ghost: position of the first non-trivia token
+        return a
+
+    def requires(self, K, a):
+        p, kw = self.p, toint(K.st.seq(a['keyword']).get(0))
+        return AND(super().requires(K, a), self.first_non_trivia(K, a, p), p < self.n_of(K, a),
+                   OR(SBool(MATCH(toint(p), KWPAT(kw))), SBool(MATCH(toint(p), SYMPAT(kw)))))
+
+    def ensures(self, K, a, old, res):
+        if not res.returned:
+            return [('no-exception', False)]
+        pos0, pos1, p = self.pos_of(old, a), self.pos_of(K, a), self.p
+        out = K.seq(res.value)
+        return [('cursor-ends-one-past-the-matched-token', val_eq(pos1, p + 1)),
+                ('returns-the-trivia-then-the-keyword',
+                 AND(val_eq(out.n, p - pos0 + 1), forall(0, p - pos0, lambda k: val_eq(out.get(k), code(pos0 + k))),
+                     val_eq(out.get(p - pos0), K.st.seq(a['keyword']).get(0)))),
+                self.frame_clause(K, a, old)]
+
+
+class GetName(_CursorHelper):
+    """_get_name(node, tok): the trivia before the name, then the code of the name token handed in; the cursor ends one
+    past the first non-trivia token.  (The function does not compare `tok` with the token under the cursor: that the two
+    are the same token is the parser's node/token correspondence, decided by the C08 obligations and the bounded run.)"""
+    target = WRITER + '._get_name'
+
+    def setup(self, K):
+        a = super().setup(K)
+        a['tok'] = K.int('tok', 0)
+        self.p = K.int('p', 0)
+        return a
+
+    def requires(self, K, a):
+        return AND(super().requires(K, a), self.first_non_trivia(K, a, self.p), SBool(MATCH(toint(a['tok']), z3.IntVal(NAMECLS))))
+
+    def attr_model(self, base, attr):
+        if attr == 'code' and isinstance(base, (int, SInt)):
+            c = code(base)
+            return SSeq(1, lambda i: c, 'bytes')
+        return NotImplemented
+
+    def ensures(self, K, a, old, res):
+        if not res.returned:
+            return [('no-exception', False)]
+        pos0, pos1, p = self.pos_of(old, a), self.pos_of(K, a), self.p
+        out = K.seq(res.value)
+        return [('cursor-ends-one-past-the-first-non-trivia-token', val_eq(pos1, p + 1)),
+                ('returns-the-trivia-then-the-code-of-the-name-token',
+                 AND(val_eq(out.n, p - pos0 + 1), forall(0, p - pos0, lambda k: val_eq(out.get(k), code(pos0 + k))),
+                     val_eq(out.get(p - pos0), code(a['tok'])))),
+                self.frame_clause(K, a, old)]
+
+
+class GetSemis(_CursorHelper):
+    """_get_semis(node): consumes the maximal run of trivia (up to the node's end) and ';' tokens at the cursor and returns
+    their codes in order, a ';' token as the byte ';'.  The list of byte strings that is only appended to and finally
+    joined is represented by its concatenation (join(l + [x]) = join(l) + x)."""
+    target = WRITER + '._get_semis'
+
+    def requires(self, K, a):
+        n = self.n_of(K, a)
+        return AND(super().requires(K, a), forall(0, n, lambda i: NOT(AND(trivia(i), is_semi(i)))))     # Token.matches compares classes
+
+    def method_model(self, ex, recv, name, A, kw, st, node):
+        if name == 'append' and isinstance(recv, Ref) and len(A) == 1 and isinstance(A[0], (SSeq, bytes)):
+            cur = st.heap[recv.id]
+            st.write_cell(recv, (cur + st.seq(A[0])).with_kind('list'))
+            return None
+        return super().method_model(ex, recv, name, A, kw, st, node)
+
+    def _run(self, pos0, pos, out):
+        return AND(pos >= pos0, pos <= self.n, forall(pos0, pos, lambda i: OR(trivia(i), is_semi(i))),
+                   val_eq(out.n, pos - pos0),
+                   forall(0, out.n, lambda k: val_eq(out.get(k), ite(is_semi(pos0 + k), SEMI, code(pos0 + k)))))
+
+    def ensures(self, K, a, old, res):
+        if not res.returned:
+            return [('no-exception', False)]
+        pos0, pos1, b, n = self.pos_of(old, a), self.pos_of(K, a), self.bound_of(old, a), self.n_of(old, a)
+        out = K.seq(res.value)
+        return [('consumes-a-run-of-trivia-and-semicolons-and-returns-their-codes-in-order', self._run(pos0, pos1, out)),
+                ('the-run-is-maximal', AND(OR(pos1 >= b, NOT(trivia(pos1))), OR(pos1 >= n, NOT(is_semi(pos1))))),
+                self.frame_clause(K, a, old)]
+
+    @property
+    def loops(self):
+        me = self
+
+        def inv(ctx, k):
+            return [('consumed-run', me._run(me.pos0, ctx.get('self._pos'), ctx['spaces_and_semis']))]
+        return {1: LoopSpec(inv=inv, modifies=['self', 'spaces_and_semis'], variant=lambda ctx: me.n - ctx.get('self._pos'),
+                            shapes={'spaces_and_semis': lambda: V.int_seq('spaces_and_semis', kind='list')})}
+
+
+class FmtGetCodeForSpaces(GetCodeForSpaces):
+    """LuaFormatterWriter._get_code_for_spaces: the cursor moves exactly as in the base class (the formatter rewrites the text
+    of the trivia run, never its extent).  The text is the result of the regular-expression pipeline, opaque here (C10's
+    scans and bounded enumeration are about it)."""
+    target = 'pico8.lua.lua:LuaFormatterWriter._get_code_for_spaces'
+    property_ids = ('C09', 'C10')
+
+    def setup(self, K):
+        a = super().setup(K)
+        rec = K.st.heap[a['self'].id]
+        rec['_indent_mult'] = K.int('indent_mult', 0)
+        return a
+
+    def call_hook(self, ex, node, f, args, kw, st):
+        if getattr(f, 'qual', getattr(f, 'name', None)) in ('re:sub', 're.sub') and len(args) == 3:
+            return V.int_seq('resub', kind='bytes')        # some byte string
+        return super().call_hook(ex, node, f, args, kw, st)
+
+    def ensures(self, K, a, old, res):
+        if not res.returned:
+            return [('no-exception', False)]
+        pos1 = self.pos_of(K, a)
+        return [('cursor-stops-at-the-first-non-trivia-token-or-the-bound', self.first_non_trivia(old, a, pos1)),
+                self.frame_clause(K, a, old)]
+
+
+CONTRACTS = [GetCodeForSpaces(), GetText(), GetName(), GetSemis(), FmtGetCodeForSpaces()]
 
 
 # ------------------------------------------------------------------------------------------------ path-based obligations
@@ -129,35 +328,7 @@ def handler_functions():
     return [f for f in cls.body if isinstance(f, ast.FunctionDef) and f.name.startswith('_walk_')]
 
 
-def consistent(trace):
-    """Drop paths that take contradictory branches on the SAME test (or on a flag set to a constant) with nothing assigned in
-    between: `if short_if: ... if not short_if:`, `in_parens = True ... if in_parens:`.  Sound: only infeasible paths are dropped."""
-    known = {}
-    for e in trace:
-        if e[0] == 'assign':
-            names = {n.id for n in ast.walk(e[1]) if isinstance(n, ast.Name)} | {ast.unparse(e[1])}
-            for k in list(known):
-                if any(nm in k[1] for nm in names):
-                    del known[k]
-            if isinstance(e[1], ast.Name) and isinstance(e[2], ast.Constant) and isinstance(e[2].value, bool):
-                known[('t', frozenset([e[1].id]), e[1].id)] = e[2].value
-        elif e[0] == 'iterate':
-            names = {n.id for n in ast.walk(e[1]) if isinstance(n, ast.Name)}
-            for k in list(known):
-                if any(nm in k[1] for nm in names):
-                    del known[k]
-        elif e[0] == 'assume':
-            test, pol = e[1], e[2]
-            while isinstance(test, ast.UnaryOp) and isinstance(test.op, ast.Not):
-                test, pol = test.operand, not pol
-            if any(isinstance(n, ast.Call) for n in ast.walk(test)) and not ast.unparse(test).startswith("self._args.get('ignore_tokens')"):
-                continue                      # calls may have effects: not correlated (the ignore_tokens option is constant)
-            names = frozenset(n.id for n in ast.walk(test) if isinstance(n, ast.Name)) | frozenset([ast.unparse(test)])
-            key = ('t', names, ast.unparse(test))
-            if key in known and known[key] != pol:
-                return False
-            known[key] = pol
-    return True
+from pyvc.effects import consistent
 
 
 def indent_obligations():
@@ -277,12 +448,11 @@ def no_silent_loss_obligations():
     c.target = WRITER + '.to_lines'
     st = State()
     K = Kit(st)
-    T = _Toks(K)
-    c.T = T
+    ntok = K.int('ntokens', 0)
     end = K.int('root_end', 0)
-    st.assume(end <= T.n)
+    st.assume(end <= ntok)
     root = st.alloc({'end_pos': end}, 'pico8.lua.parser:Chunk')
-    toklist = st.alloc(T.tokens, 'list')
+    toklist = st.alloc(SSeq(ntok, lambda i: i if isinstance(i, int) else SInt(toint(i)), 'list'), 'list')
     obj = st.alloc({'_tokens': toklist, '_root': root, '_pos': 0, '_args': {}}, WRITER)
     st.locals.update({'self': obj})
     obls = []
@@ -292,14 +462,14 @@ def no_silent_loss_obligations():
     ordn = ex.loop_ord[id(loop)]
 
     def inv(ctx, k):
-        return [('tokens-seen-so-far-are-trivia', forall(end, end + k, lambda i: T.trivia(i)))]
+        return [('tokens-seen-so-far-are-trivia', forall(end, end + k, lambda i: trivia(i)))]
     c._loops_override = {ordn: LoopSpec(inv=inv)}
     outs = ex.block([loop], st)
     raised = [o for o in outs if o.kind == 'raise']
     normal = [o for o in outs if o.kind == 'normal']
     j = V.fresh_int('j')
     for o in normal:
-        ex.oblige(o.st, forall(end, T.n, lambda i: T.trivia(i)), 'post.no-error-only-if-every-token-after-the-parsed-part-is-trivia', loop)
+        ex.oblige(o.st, forall(end, ntok, lambda i: trivia(i)), 'post.no-error-only-if-every-token-after-the-parsed-part-is-trivia', loop)
     for o in raised:
         ex.oblige(o.st, val_eq(o.val.exc, 'ParserError') if False else True, 'raise-is-ParserError', loop)
     ok_exc = all(o.val.exc == 'ParserError' for o in raised) and bool(raised)
